@@ -98,6 +98,11 @@ class Monitor:
                 top = self.stack.pop()
                 if top[0] != id(frame.f_code):
                     self._bad("return-does-not-match-innermost-start", func=name, innermost=top[1])
+                    if not any(c == id(frame.f_code) for c, _ in self.stack):
+                        # a return event of a function that has no open activation at all (e.g. F19: the activation was already
+                        # closed by the premature return event and its finally clause now yields): it is reported above, but it
+                        # must not close the activation of somebody else, or every enclosing frame is misreported afterwards
+                        self.stack.append(top)
         elif event == "line":
             self.line_events += 1
             sp = self.spans.get(name)
